@@ -239,7 +239,7 @@ def part_models(d):
     kids = []
     if d.scripts.hasChildNodes(): kids.append(X.walk(d.scripts))
     if d.fontfacedecls.hasChildNodes(): kids.append(X.walk(d.fontfacedecls))
-    kids.append(autostyles(d._used_auto_styles([d.styles, d.automaticstyles, d.body]), False))
+    kids.append(autostyles(d._used_auto_styles([d.styles, d.body]), False))
     kids.append(X.walk(d.body))
     out.append(('contentxml()', wrap(office.DocumentContent, kids)))
     kids = []
